@@ -1975,6 +1975,18 @@ func (w *jobctlWorld) settle(rounds int) {
 			w.ctx.Sim().Pods().Resync()
 			w.ctx.Sim().Pods().Flush()
 			w.c.Emit("jc.resync", w.state())
+			// The periodic resync is the controller's safety net: whatever wake-up was lost (a timer that
+			// was never armed, a dynamic-configuration change that produces no Job or Pod event), the resync
+			// notification of a Job that is in the cache puts its key back into the work queue.
+			if _, ok := w.ctx.Sim().Jobs().CacheGet(&execution.Job{ObjectMeta: metav1.ObjectMeta{Namespace: "ns", Name: "job"}}); ok {
+				queued := false
+				for _, k := range w.q.Ready() {
+					queued = queued || k == "ns/job"
+				}
+				if !queued {
+					w.c.Violate("C20", "resync-enqueues", "after a resync of the Job and Pod informers the key of the cached Job is not in the work queue: lost wake-ups (e.g. a pending timeout that became effective through a dynamic-configuration change) are never repaired")
+				}
+			}
 		}
 		if round >= 3 {
 			for _, p := range w.ownedPods() {
